@@ -11,11 +11,11 @@ Inductive tnode := TT (s : str) | TC | TE (tag : nat) (a : dattrs) (kids : list 
 (** ... by a fresh render of a view *)
 Fixpoint cv (v : view) : list tnode :=
   match v with
-  | VText s => [TT s]
+  | VText _ s => [TT s]
   | VUnit => [TC]
   | VEl tag a c => [TE tag (build_attrs a) (cv c)]
-  | VTuple l => flat_map cv l
-  | VEither _ c => cv c
+  | VTuple _ l => flat_map cv l
+  | VEither _ _ c => cv c
   | VOpt (Some c) => cv c
   | VOpt None => [TC]
   | VVec l => flat_map cv l ++ [TC]
@@ -25,26 +25,30 @@ Fixpoint cv (v : view) : list tnode :=
 (** ... by a state (whose elements hold exactly the nodes of their child state, see [good]) *)
 Fixpoint cs (s : st) : list tnode :=
   match s with
-  | SText _ t => [TT t]
+  | SText _ _ t => [TT t]
   | SUnit _ | SOptNone _ => [TC]
   | SEl _ tag _ d _ c => [TE tag d (cs c)]
-  | STuple l | SStatic l _ => flat_map cs l
-  | SEither _ c | SOptSome c => cs c
+  | STuple _ l | SStatic l _ => flat_map cs l
+  | SEither _ _ c | SOptSome c => cs c
   | SVec l _ => flat_map cs l ++ [TC]
   end.
 
 (* ------------------------------------------------------------------------- the fragment *)
 
-Definition attrs_plain (a : vattrs) : Prop :=
-  va_on a = false /\ has_tok tok_on (tokens (va_class a)) = false.
+(** the new attributes [a] of an element rebuilt in place, against the attributes [prev] it
+    was last rendered with: the class attribute is always rewritten from the class string,
+    and the [class:on] toggle only reacts to a change of its flag; this goes wrong exactly
+    when the toggle was on and [on] is not where it should be afterwards (F-C03-c) *)
+Definition attrs_ok (prev a : vattrs) : bool :=
+  negb (va_on prev && xorb (va_on a) (has_tok tok_on (tokens (va_class a)))).
 
-(** views without StaticVec, without an active [class:on] toggle, tuples non-empty *)
+(** views in which every state owns a node: no StaticVec / Fragment, no empty tuple or array *)
 Fixpoint okv (v : view) : Prop :=
   match v with
-  | VText _ | VUnit | VOpt None => True
-  | VEl _ a c => attrs_plain a /\ okv c
-  | VTuple l => l <> [] /\ (fix all l := match l with [] => True | x :: r => okv x /\ all r end) l
-  | VEither _ c | VOpt (Some c) => okv c
+  | VText _ _ | VUnit | VOpt None => True
+  | VEl _ a c => okv c
+  | VTuple _ l => l <> [] /\ (fix all l := match l with [] => True | x :: r => okv x /\ all r end) l
+  | VEither _ _ c | VOpt (Some c) => okv c
   | VVec l => (fix all l := match l with [] => True | x :: r => okv x /\ all r end) l
   | VStatic _ => False
   end.
@@ -54,7 +58,7 @@ Fixpoint all_okv (l : list view) : Prop := match l with [] => True | x :: r => o
 Lemma all_okv_fix : forall l,
   (fix all l := match l with [] => True | x :: r => okv x /\ all r end) l <-> all_okv l.
 Proof. induction l; simpl; tauto. Qed.
-Lemma okv_tuple : forall l, okv (VTuple l) <-> l <> [] /\ all_okv l.
+Lemma okv_tuple : forall a l, okv (VTuple a l) <-> l <> [] /\ all_okv l.
 Proof. intros. cbn [okv]. rewrite all_okv_fix. tauto. Qed.
 Lemma okv_vec : forall l, okv (VVec l) <-> all_okv l.
 Proof. intros. cbn [okv]. apply all_okv_fix. Qed.
@@ -63,11 +67,11 @@ Proof. intros. cbn [okv]. apply all_okv_fix. Qed.
     of its child state, and its DOM attributes are those of the value last rendered *)
 Fixpoint good (n : N) (s : st) : Prop :=
   match s with
-  | SText id _ | SUnit id | SOptNone id => (id < n)%N
+  | SText id _ _ | SUnit id | SOptNone id => (id < n)%N
   | SEl id _ prev d kids c =>
-      (id < n)%N /\ kids = ids c /\ d = build_attrs prev /\ attrs_plain prev /\ NoDup (ids c) /\ good n c
-  | STuple l => l <> [] /\ (fix all l := match l with [] => True | x :: r => good n x /\ all r end) l
-  | SEither _ c | SOptSome c => good n c
+      (id < n)%N /\ kids = ids c /\ d = build_attrs prev /\ NoDup (ids c) /\ good n c
+  | STuple _ l => l <> [] /\ (fix all l := match l with [] => True | x :: r => good n x /\ all r end) l
+  | SEither _ _ c | SOptSome c => good n c
   | SVec l mk => (mk < n)%N /\ (fix all l := match l with [] => True | x :: r => good n x /\ all r end) l
   | SStatic _ _ => False
   end.
@@ -76,23 +80,23 @@ Fixpoint all_good (n : N) (l : list st) : Prop := match l with [] => True | x ::
 Lemma all_good_fix : forall n l,
   (fix all l := match l with [] => True | x :: r => good n x /\ all r end) l <-> all_good n l.
 Proof. induction l; simpl; tauto. Qed.
-Lemma good_tuple : forall n l, good n (STuple l) <-> l <> [] /\ all_good n l.
+Lemma good_tuple : forall n a l, good n (STuple a l) <-> l <> [] /\ all_good n l.
 Proof. intros. cbn [good]. rewrite all_good_fix. tauto. Qed.
 Lemma good_vec : forall n l mk, good n (SVec l mk) <-> (mk < n)%N /\ all_good n l.
 Proof. intros. cbn [good]. rewrite all_good_fix. tauto. Qed.
 
 (** induction on views, with the hypothesis for every member of a list *)
 Lemma view_ind' : forall P : view -> Prop,
-  (forall s, P (VText s)) -> P VUnit ->
+  (forall k s, P (VText k s)) -> P VUnit ->
   (forall tag a c, P c -> P (VEl tag a c)) ->
-  (forall l, Forall P l -> P (VTuple l)) ->
-  (forall r c, P c -> P (VEither r c)) ->
+  (forall a l, Forall P l -> P (VTuple a l)) ->
+  (forall ar r c, P c -> P (VEither ar r c)) ->
   (forall c, P c -> P (VOpt (Some c))) -> P (VOpt None) ->
   (forall l, Forall P l -> P (VVec l)) ->
   (forall l, Forall P l -> P (VStatic l)) ->
   forall v, P v.
 Proof.
-  intros P H1 H2 H3 H4 H5 H6 H7 H8 H9. fix IH 1. intros v. destruct v as [s| |tag a c|l|r c|[c|]|l|l].
+  intros P H1 H2 H3 H4 H5 H6 H7 H8 H9. fix IH 1. intros v. destruct v as [k s| |tag a c|a l|ar r c|[c|]|l|l].
   - apply H1.
   - apply H2.
   - apply H3. apply IH.
@@ -108,11 +112,11 @@ Qed.
 
 Lemma good_mono : forall s n m, (n <= m)%N -> good n s -> good m s.
 Proof.
-  fix IH 1. intros s n m Hle. destruct s as [id t|id|id tag prev d kids c|l|r c|c|ph|l mk|l b]; simpl; intros H.
+  fix IH 1. intros s n m Hle. destruct s as [id k t|id|id tag prev d kids c|arr l|ar r c|c|ph|l mk|l b]; simpl; intros H.
   - lia.
   - lia.
-  - destruct H as [H1 [H2 [H3 [H4 [H5 H6]]]]].
-    split; [lia|]. split; [auto|]. split; [auto|]. split; [auto|]. split; [auto|]. eapply IH; eauto.
+  - destruct H as [H1 [H2 [H3 [H5 H6]]]].
+    split; [lia|]. split; [auto|]. split; [auto|]. split; [auto|]. eapply IH; eauto.
   - destruct H as [H1 H2]. split; auto. clear H1. induction l as [|x l IHl]; auto. destruct H2 as [A B].
     split; [eapply IH; eauto | apply IHl; exact B].
   - eapply IH; eauto.
@@ -129,7 +133,7 @@ Proof. induction l; simpl; intros; auto. destruct H0. split; eauto using good_mo
 (** all top-level ids of a good state are below the bound *)
 Lemma good_ids_lt : forall s n, good n s -> forall x, In x (ids s) -> (x < n)%N.
 Proof.
-  fix IH 1. intros s n. destruct s as [id t|id|id tag prev d kids c|l|r c|c|ph|l mk|l b]; simpl; intros H x Hx.
+  fix IH 1. intros s n. destruct s as [id k t|id|id tag prev d kids c|arr l|ar r c|c|ph|l mk|l b]; simpl; intros H x Hx.
   - destruct Hx as [<-|[]]. auto.
   - destruct Hx as [<-|[]]. auto.
   - destruct Hx as [<-|[]]. tauto.
@@ -147,7 +151,7 @@ Qed.
 (** a good state always owns at least one top-level node *)
 Lemma good_ids_nonempty : forall s n, good n s -> ids s <> [].
 Proof.
-  fix IH 1. intros s n. destruct s as [id t|id|id tag prev d kids c|l|r c|c|ph|l mk|l b]; simpl; intros H; try discriminate.
+  fix IH 1. intros s n. destruct s as [id k t|id|id tag prev d kids c|arr l|ar r c|c|ph|l mk|l b]; simpl; intros H; try discriminate.
   - destruct H as [Hne H]. destruct l as [|x l]; [congruence|]. destruct H as [Hx _]. simpl.
     pose proof (IH x n Hx). destruct (ids x); [congruence|discriminate].
   - eauto.
@@ -204,7 +208,7 @@ Qed.
 
 Lemma mark_mounted_ids : forall s, ids (mark_mounted s) = ids s.
 Proof.
-  fix IH 1. intros s. destruct s as [id t|id|id tag prev d kids c|l|r c|c|ph|l mk|l b]; simpl; auto.
+  fix IH 1. intros s. destruct s as [id k t|id|id tag prev d kids c|arr l|ar r c|c|ph|l mk|l b]; simpl; auto.
   - induction l as [|x l IHl]; simpl; auto. rewrite IH, IHl. reflexivity.
   - f_equal. induction l as [|x l IHl]; simpl; auto. rewrite IH, IHl. reflexivity.
   - induction l as [|x l IHl]; simpl; auto. rewrite IH, IHl. reflexivity.
@@ -212,7 +216,7 @@ Qed.
 
 Lemma mark_mounted_good : forall s n, good n s -> mark_mounted s = s.
 Proof.
-  fix IH 1. intros s n. destruct s as [id t|id|id tag prev d kids c|l|r c|c|ph|l mk|l b]; simpl; intros H; auto.
+  fix IH 1. intros s n. destruct s as [id k t|id|id tag prev d kids c|arr l|ar r c|c|ph|l mk|l b]; simpl; intros H; auto.
   - destruct H as [_ H]. f_equal. induction l as [|x l IHl]; simpl; auto. destruct H as [A B].
     rewrite (IH x n A), IHl; auto.
   - f_equal. eauto.
@@ -227,7 +231,7 @@ Qed.
 Lemma anchor_first : forall s n dom, good n s -> (forall x, In x (ids s) -> In x dom) ->
   exists a rest, ids s = a :: rest /\ anchor_of s dom = Some a.
 Proof.
-  fix IH 1. intros s n dom. destruct s as [id t|id|id tag prev d kids c|l|r c|c|ph|l mk|l b]; simpl; intros H Hin.
+  fix IH 1. intros s n dom. destruct s as [id k t|id|id tag prev d kids c|arr l|ar r c|c|ph|l mk|l b]; simpl; intros H Hin.
   - exists id, []. split; auto. assert (memN id dom = true) as -> by (apply memN_In; apply Hin; left; auto). auto.
   - exists id, []. split; auto. assert (memN id dom = true) as -> by (apply memN_In; apply Hin; left; auto). auto.
   - exists id, []. split; auto. assert (memN id dom = true) as -> by (apply memN_In; apply Hin; left; auto). auto.
@@ -263,7 +267,7 @@ Lemma build_list_fix : forall l nx,
      end) l nx = build_list l nx.
 Proof. intros. reflexivity. Qed.
 
-Lemma build_tuple : forall l nx, build (VTuple l) nx = let '(ss, n1) := build_list l nx in (STuple ss, n1).
+Lemma build_tuple : forall a l nx, build (VTuple a l) nx = let '(ss, n1) := build_list l nx in (STuple a ss, n1).
 Proof. intros. cbn [build]. rewrite build_list_fix. reflexivity. Qed.
 Lemma build_vec : forall l nx, build (VVec l) nx = let '(ss, n1) := build_list l (nx + 1)%N in (SVec ss nx, n1).
 Proof. intros. cbn [build]. rewrite build_list_fix. reflexivity. Qed.
@@ -319,24 +323,23 @@ Qed.
 Lemma build_ok : forall v, build_spec v.
 Proof.
   apply view_ind'; unfold build_spec.
-  - intros t _ n s n' E. simpl in E. inversion E. subst. simpl. repeat split; auto; try lia; try (intros x [<-|[]]; lia);
+  - intros k t _ n s n' E. simpl in E. inversion E. subst. simpl. repeat split; auto; try lia; try (intros x [<-|[]]; lia);
       try (constructor; [intros []|constructor]).
   - intros _ n s n' E. simpl in E. inversion E. subst. simpl. repeat split; auto; try lia; try (intros x [<-|[]]; lia);
       try (constructor; [intros []|constructor]).
-  - intros tag a c IH [Ha Hc] n s n' E. cbn [build] in E.
+  - intros tag a c IH Hc n s n' E. cbn [build okv] in E, Hc.
     destruct (build c (n + 1)%N) as [cs0 n1] eqn:Eb.
     destruct (IH Hc _ _ _ Eb) as [G [C [Le [Lo Nd]]]].
     unfold mount_st in E. rewrite (mark_mounted_good _ _ G) in E.
     rewrite mount_ids_end in E by (auto; intros x _ []). cbn [app] in E. inversion E. subst. clear E.
     cbn [good cs cv ids]. rewrite C.
-    repeat split; auto; try lia; try (intros x [<-|[]]; lia); try (constructor; [intros []|constructor]);
-      try (destruct Ha; assumption).
-  - intros l HF Hok n s n' E. apply okv_tuple in Hok. destruct Hok as [Hne Hok].
+    repeat split; auto; try lia; try (intros x [<-|[]]; lia); try (constructor; [intros []|constructor]).
+  - intros a l HF Hok n s n' E. apply (proj1 (okv_tuple _ _)) in Hok. destruct Hok as [Hne Hok].
     rewrite build_tuple in E. destruct (build_list l n) as [ss n1] eqn:El. inversion E. subst. clear E.
     destruct (build_list_ok l HF Hok n ss n' El) as [G [C [Le [Lo [Nd Len]]]]].
     rewrite good_tuple. cbn [cs cv ids]. repeat split; auto.
     destruct ss; [destruct l; [congruence|discriminate]|discriminate].
-  - intros r c IH Hc n s n' E. cbn [build] in E. destruct (build c n) as [cs0 n1] eqn:Eb.
+  - intros ar r c IH Hc n s n' E. cbn [build] in E. destruct (build c n) as [cs0 n1] eqn:Eb.
     inversion E. subst. clear E. destruct (IH Hc _ _ _ Eb) as [G [C [Le [Lo Nd]]]].
     cbn [good cs cv ids]. repeat split; auto.
   - intros c IH Hc n s n' E. cbn [build] in E. destruct (build c n) as [cs0 n1] eqn:Eb.
@@ -362,16 +365,47 @@ Proof.
   apply andb_true_iff in H. destruct H as [H1 H2]. apply N.eqb_eq in H1. f_equal; auto.
 Qed.
 
-Lemma rebuild_attrs_plain : forall a prev, attrs_plain a -> attrs_plain prev ->
+Lemma filter_no_tok : forall t l, has_tok t l = false -> filter (fun x => negb (str_eqb t x)) l = l.
+Proof.
+  induction l as [|x l IH]; simpl; intros H; auto. apply orb_false_iff in H. destruct H as [H1 H2].
+  rewrite H1. simpl. rewrite IH; auto.
+Qed.
+
+Lemma rebuild_attrs_ok : forall a prev, attrs_ok prev a = true ->
   rebuild_attrs a prev (build_attrs prev) = build_attrs a.
 Proof.
-  intros a prev [Ha1 Ha2] [Hp1 Hp2]. unfold rebuild_attrs, build_attrs. rewrite Ha1, Hp1.
-  cbn [Bool.eqb da_id da_hidden da_class da_color]. f_equal.
+  intros a prev H. unfold attrs_ok in H. apply negb_true_iff in H.
+  unfold rebuild_attrs, build_attrs. cbn [da_id da_hidden da_class da_color]. f_equal.
   - destruct (va_id a) as [v|]; destruct (va_id prev) as [p|]; auto.
     destruct (str_eqb v p) eqn:E; auto. apply str_eqb_eq in E. subst. reflexivity.
   - destruct (va_hidden a), (va_hidden prev); reflexivity.
+  - destruct (va_on a), (va_on prev); cbn [Bool.eqb andb xorb] in *; auto.
+    + (* on before and after: fine only if the class string itself contains the token *)
+      unfold add_class. destruct (has_tok tok_on (tokens (va_class a))); [reflexivity|discriminate].
+    + (* switched off: the token must not be part of the class string *)
+      unfold remove_class. destruct (has_tok tok_on (tokens (va_class a))) eqn:E; [discriminate|].
+      rewrite filter_no_tok; auto.
   - destruct (str_eqb (va_color a) (va_color prev)) eqn:E; auto. apply str_eqb_eq in E. rewrite E. reflexivity.
 Qed.
+
+(** [compat v s]: wherever rebuilding the state [s] with [v] rebuilds an element in place,
+    the new attributes are [attrs_ok] against the ones it was rendered with.  The
+    complement, together with [~ okv], is KnownClass_C03. *)
+Fixpoint compat (v : view) (s : st) {struct v} : Prop :=
+  if negb (tcode_eqb (tc_view v) (tc_st s)) then True else
+  match v, s with
+  | VEl _ a c, SEl _ _ prev _ _ cs0 => attrs_ok prev a = true /\ compat c cs0
+  | VTuple _ l, STuple _ ss =>
+      (fix go l ss := match l, ss with x :: r, s :: sr => compat x s /\ go r sr | _, _ => True end) l ss
+  | VEither _ r c, SEither _ r0 cs0 => if Nat.eqb r r0 then compat c cs0 else True
+  | VOpt (Some c), SOptSome cs0 => compat c cs0
+  | VVec l, SVec ss _ =>
+      (fix go l ss := match l, ss with x :: r, s :: sr => compat x s /\ go r sr | _, _ => True end) l ss
+  | _, _ => True
+  end.
+
+Fixpoint compat_list (l : list view) (ss : list st) : Prop :=
+  match l, ss with x :: r, s :: sr => compat x s /\ compat_list r sr | _, _ => True end.
 
 (* ------------------------------------------------------------ replacing a state *)
 
@@ -438,7 +472,7 @@ Qed.
 (* -------------------------------------------------------------------- rebuild, lists *)
 
 Definition rb_spec (v : view) : Prop :=
-  okv v -> forall s pre post w,
+  okv v -> forall s pre post w, compat v s ->
   good (r_next w) s -> r_panic w = false -> r_dom w = pre ++ ids s ++ post ->
   NoDup (pre ++ ids s ++ post) -> (forall x, In x (pre ++ post) -> (x < r_next w)%N) ->
   forall s' w', rebuild_any v s w = (s', w') -> post_ok pre post v w s' w'.
@@ -467,21 +501,22 @@ Proof.
 Qed.
 
 Lemma rebuild_list_ok : forall l, Forall rb_spec l -> all_okv l ->
-  forall ss pre post w, length ss = length l -> all_good (r_next w) ss -> r_panic w = false ->
+  forall ss pre post w, compat_list l ss ->
+  length ss = length l -> all_good (r_next w) ss -> r_panic w = false ->
   r_dom w = pre ++ flat_map ids ss ++ post -> NoDup (pre ++ flat_map ids ss ++ post) ->
   (forall x, In x (pre ++ post) -> (x < r_next w)%N) ->
   forall ss' w', rebuild_list l ss w = (ss', w') ->
   posts_ok pre post l w ss' w' /\ length ss' = length l.
 Proof.
-  induction l as [|v l IH]; intros HF Hok ss pre post w Hlen Hg Hp Hd Hnd Hb ss' w' E.
+  induction l as [|v l IH]; intros HF Hok ss pre post w Hcp Hlen Hg Hp Hd Hnd Hb ss' w' E.
   - destruct ss; [|discriminate]. simpl in E. inversion E. subst. unfold posts_ok. simpl in *.
     repeat split; auto. lia.
   - destruct ss as [|s sr]; [discriminate|]. inversion HF as [|? ? Hv HF']; subst.
-    destruct Hok as [Hokv Hokl]. destruct Hg as [Hgs Hgr]. cbn [rebuild_list] in E.
+    destruct Hok as [Hokv Hokl]. destruct Hg as [Hgs Hgr]. destruct Hcp as [Hcs Hcr]. cbn [rebuild_list] in E.
     destruct (rebuild_any v s w) as [s1 w1] eqn:E1. destruct (rebuild_list l sr w1) as [rest w2] eqn:E2.
     inversion E. subst ss' w'. clear E. cbn [flat_map] in Hd, Hnd.
     rewrite <- app_assoc in Hd, Hnd.
-    destruct (Hv Hokv s pre (flat_map ids sr ++ post) w Hgs Hp Hd Hnd) with (s' := s1) (w' := w1)
+    destruct (Hv Hokv s pre (flat_map ids sr ++ post) w Hcs Hgs Hp Hd Hnd) with (s' := s1) (w' := w1)
       as [P1 [D1 [G1 [C1 [L1 N1]]]]]; auto.
     { intros x Hx. rewrite !in_app_iff in Hx. destruct Hx as [Hx|[Hx|Hx]].
       - apply Hb. apply in_or_app. auto.
@@ -631,13 +666,13 @@ Proof.
 Qed.
 
 Lemma vec_zip_ok : forall mk l, Forall rb_spec l -> all_okv l ->
-  forall ss pre post w, all_good (r_next w) ss -> r_panic w = false ->
+  forall ss pre post w, compat_list l ss -> all_good (r_next w) ss -> r_panic w = false ->
   r_dom w = pre ++ flat_map ids ss ++ mk :: post -> NoDup (pre ++ flat_map ids ss ++ mk :: post) ->
   (forall x, In x (pre ++ mk :: post) -> (x < r_next w)%N) ->
   forall kept adds w', vec_zip mk l ss w = (kept, adds, w') ->
   posts_ok pre (mk :: post) l w (kept ++ adds) w'.
 Proof.
-  intros mk l. induction l as [|v l IH]; intros HF Hok ss pre post w Hg Hp Hd Hnd Hb kept adds w' E.
+  intros mk l. induction l as [|v l IH]; intros HF Hok ss pre post w Hcp Hg Hp Hd Hnd Hb kept adds w' E.
   - destruct ss as [|s sr].
     + rewrite vec_zip_nn in E. inversion E. subst. unfold posts_ok. simpl in *. repeat split; auto. lia.
     + rewrite vec_zip_nc in E. destruct (vec_drop_ok (s :: sr) pre (mk :: post) w Hd Hnd) as [w1 [E1 [D1 [N1 P1]]]].
@@ -649,10 +684,10 @@ Proof.
     + simpl flat_map in Hd, Hnd. cbn [app] in Hd, Hnd.
       destruct (vec_zip_left mk (v :: l) (conj Hokv Hokl) pre post w Hp Hd Hnd Hb kept adds w' E) as [Ek Hpo].
       subst kept. exact Hpo.
-    + destruct Hg as [Hgs Hgr]. rewrite vec_zip_cc in E.
+    + destruct Hg as [Hgs Hgr]. destruct Hcp as [Hcs Hcr]. rewrite vec_zip_cc in E.
       destruct (rebuild_any v s w) as [s1 w1] eqn:E1. destruct (vec_zip mk l sr w1) as [[k1 a1] w2] eqn:E2.
       inversion E. subst kept adds w'. clear E. cbn [flat_map] in Hd, Hnd. rewrite <- app_assoc in Hd, Hnd.
-      destruct (Hv Hokv s pre (flat_map ids sr ++ mk :: post) w Hgs Hp Hd Hnd) with (s' := s1) (w' := w1)
+      destruct (Hv Hokv s pre (flat_map ids sr ++ mk :: post) w Hcs Hgs Hp Hd Hnd) with (s' := s1) (w' := w1)
         as [P1 [D1 [G1 [C1 [L1 N1]]]]]; auto.
       { intros x Hx. rewrite !in_app_iff in Hx. destruct Hx as [Hx|[Hx|Hx]].
         - apply Hb. apply in_or_app. auto.
@@ -705,16 +740,31 @@ Qed.
 (* ---------------------------------------------------------------- the main theorem *)
 
 Lemma tcode_eqb_refl : forall t, tcode_eqb t t = true.
-Proof. destruct t; simpl; auto using Nat.eqb_refl. Qed.
+Proof. destruct t; simpl; rewrite ?Nat.eqb_refl, ?eqb_reflx; auto. Qed.
 
 Lemma rebuild_any_diff : forall v s w,
   tcode_eqb (tc_view v) (tc_st s) = false -> rebuild_any v s w = replace_with v s w.
 Proof. intros v s w H. destruct v; cbn [rebuild_any]; rewrite H; reflexivity. Qed.
 
-Lemma rebuild_tuple_eq : forall l ss w, length l = length ss ->
-  rebuild_any (VTuple l) (STuple ss) w = let '(ss', w') := rebuild_list l ss w in (STuple ss', w').
+Lemma compat_same : forall v s, tcode_eqb (tc_view v) (tc_st s) = true ->
+  compat v s =
+  match v, s with
+  | VEl _ a c, SEl _ _ prev _ _ cs0 => attrs_ok prev a = true /\ compat c cs0
+  | VTuple _ l, STuple _ ss => compat_list l ss
+  | VEither _ r c, SEither _ r0 cs0 => if Nat.eqb r r0 then compat c cs0 else True
+  | VOpt (Some c), SOptSome cs0 => compat c cs0
+  | VVec l, SVec ss _ => compat_list l ss
+  | _, _ => True
+  end.
 Proof.
-  intros l ss w H. cbn [rebuild_any tc_view tc_st tcode_eqb]. rewrite H, Nat.eqb_refl. reflexivity.
+  intros v s H. destruct v; cbn [compat]; rewrite H; cbn [negb]; try reflexivity.
+Qed.
+
+Lemma rebuild_tuple_eq : forall a a0 l ss w, length l = length ss -> a = a0 ->
+  rebuild_any (VTuple a l) (STuple a0 ss) w = let '(ss', w') := rebuild_list l ss w in (STuple a ss', w').
+Proof.
+  intros a a0 l ss w H Ha. subst a0. cbn [rebuild_any tc_view tc_st tcode_eqb].
+  rewrite H, Nat.eqb_refl, eqb_reflx. reflexivity.
 Qed.
 
 Lemma rebuild_vec_zip_eq : forall l ss mk w, ss <> [] -> l <> [] ->
@@ -737,75 +787,80 @@ Theorem rebuild_any_ok : forall v, rb_spec v.
 Proof.
   apply view_ind'; unfold rb_spec.
   - (* text *)
-    intros t _ s pre post w Hg Hp Hd Hnd Hb s' w' E.
-    destruct (tcode_eqb (tc_view (VText t)) (tc_st s)) eqn:Etc.
+    intros k t _ s pre post w Hcp Hg Hp Hd Hnd Hb s' w' E.
+    destruct (tcode_eqb (tc_view (VText k t)) (tc_st s)) eqn:Etc.
     2:{ rewrite rebuild_any_diff in E by auto. eapply replace_with_ok; eauto. exact I. }
-    destruct s; try discriminate. cbn [rebuild_any tc_view tc_st tcode_eqb negb] in E.
+    destruct s; try discriminate. cbn [rebuild_any] in E. rewrite Etc in E. cbn [negb] in E.
     inversion E. subst. unfold post_ok. cbn [ids cs cv good] in *. repeat split; auto. lia.
   - (* unit *)
-    intros _ s pre post w Hg Hp Hd Hnd Hb s' w' E.
+    intros _ s pre post w Hcp Hg Hp Hd Hnd Hb s' w' E.
     destruct (tcode_eqb (tc_view VUnit) (tc_st s)) eqn:Etc.
     2:{ rewrite rebuild_any_diff in E by auto. eapply replace_with_ok; eauto. exact I. }
     destruct s; try discriminate. cbn [rebuild_any tc_view tc_st tcode_eqb negb] in E.
     inversion E. subst. unfold post_ok. cbn [ids cs cv good] in *. repeat split; auto. lia.
   - (* element *)
-    intros tag a c IH Hok s pre post w Hg Hp Hd Hnd Hb s' w' E.
+    intros tag a c IH Hok s pre post w Hcp Hg Hp Hd Hnd Hb s' w' E.
     destruct (tcode_eqb (tc_view (VEl tag a c)) (tc_st s)) eqn:Etc.
     2:{ rewrite rebuild_any_diff in E by auto. eapply replace_with_ok; eauto. }
+    rewrite compat_same in Hcp by auto.
     destruct s as [| |id tag0 prev d kids c0| | | | | |]; try discriminate.
     cbn [tc_view tc_st tcode_eqb] in Etc. apply Nat.eqb_eq in Etc. subst tag0.
     cbn [rebuild_any tc_view tc_st tcode_eqb] in E. rewrite Nat.eqb_refl in E. cbn [negb] in E.
-    destruct Hok as [Ha Hc]. destruct Hg as [Hid [Hk [Hda [Hpl [Hndc Hgc]]]]].
+    cbn [okv] in Hok. destruct Hcp as [Ha Hcc]. destruct Hg as [Hid [Hk [Hda [Hndc Hgc]]]].
     destruct (rebuild_any c c0 {| r_dom := kids; r_next := r_next w; r_panic := r_panic w |}) as [c1 wk] eqn:Ec.
     inversion E. subst s' w'. clear E.
-    destruct (IH Hc c0 [] [] {| r_dom := kids; r_next := r_next w; r_panic := r_panic w |}) with (s' := c1) (w' := wk)
+    destruct (IH Hok c0 [] [] {| r_dom := kids; r_next := r_next w; r_panic := r_panic w |} Hcc) with (s' := c1) (w' := wk)
       as [P1 [D1 [G1 [C1 [L1 N1]]]]]; cbn [r_dom r_next r_panic app]; auto.
     { rewrite app_nil_r. auto. }
     { rewrite app_nil_r. auto. }
     { intros x []. }
     cbn [app r_next] in *. rewrite app_nil_r in D1, N1.
-    unfold post_ok. cbn [ids cs cv good r_panic r_dom r_next]. rewrite Hda, rebuild_attrs_plain by auto.
-    rewrite C1. repeat split; auto; try lia; try (destruct Ha; assumption).
-  - (* tuple *)
-    intros l HF Hok s pre post w Hg Hp Hd Hnd Hb s' w' E.
-    destruct (tcode_eqb (tc_view (VTuple l)) (tc_st s)) eqn:Etc.
+    unfold post_ok. cbn [ids cs cv good r_panic r_dom r_next]. rewrite Hda, rebuild_attrs_ok by auto.
+    rewrite C1. repeat split; auto; try lia.
+  - (* tuple / array *)
+    intros a l HF Hok s pre post w Hcp Hg Hp Hd Hnd Hb s' w' E.
+    destruct (tcode_eqb (tc_view (VTuple a l)) (tc_st s)) eqn:Etc.
     2:{ rewrite rebuild_any_diff in E by auto. eapply replace_with_ok; eauto. }
-    destruct s as [| | |ss| | | | |]; try discriminate.
-    cbn [tc_view tc_st tcode_eqb] in Etc. apply Nat.eqb_eq in Etc.
+    rewrite compat_same in Hcp by auto.
+    destruct s as [| | |a0 ss| | | | |]; try discriminate.
+    cbn [tc_view tc_st tcode_eqb] in Etc. apply andb_true_iff in Etc. destruct Etc as [Ea Etc].
+    apply eqb_prop in Ea. apply Nat.eqb_eq in Etc.
     rewrite rebuild_tuple_eq in E by auto. destruct (rebuild_list l ss w) as [ss1 w1] eqn:El.
-    inversion E. subst s' w'. clear E. apply okv_tuple in Hok. destruct Hok as [Hne Hokl].
-    apply good_tuple in Hg. destruct Hg as [_ Hgl]. cbn [ids] in Hd, Hnd.
-    destruct (rebuild_list_ok l HF Hokl ss pre post w) with (ss' := ss1) (w' := w1)
+    inversion E. subst s' w'. clear E. apply (proj1 (okv_tuple _ _)) in Hok. destruct Hok as [Hne Hokl].
+    apply (proj1 (good_tuple _ _ _)) in Hg. destruct Hg as [_ Hgl]. cbn [ids] in Hd, Hnd.
+    destruct (rebuild_list_ok l HF Hokl ss pre post w Hcp) with (ss' := ss1) (w' := w1)
       as [[P1 [D1 [G1 [C1 [L1 N1]]]]] Len1]; auto.
     unfold post_ok. cbn [ids cs cv]. rewrite good_tuple. repeat split; auto.
     destruct ss1; [destruct l; [congruence|discriminate]|discriminate].
-  - (* either *)
-    intros r c IH Hok s pre post w Hg Hp Hd Hnd Hb s' w' E.
-    destruct (tcode_eqb (tc_view (VEither r c)) (tc_st s)) eqn:Etc.
+  - (* Either / EitherOf3 *)
+    intros ar r c IH Hok s pre post w Hcp Hg Hp Hd Hnd Hb s' w' E.
+    destruct (tcode_eqb (tc_view (VEither ar r c)) (tc_st s)) eqn:Etc.
     2:{ rewrite rebuild_any_diff in E by auto. eapply replace_with_ok; eauto. }
-    destruct s as [| | | |r0 c0| | | |]; try discriminate.
-    cbn [rebuild_any tc_view tc_st tcode_eqb negb] in E. cbn [okv good ids] in *.
-    destruct (Bool.eqb r r0).
+    rewrite compat_same in Hcp by auto.
+    destruct s as [| | | |ar0 r0 c0| | | |]; try discriminate.
+    cbn [rebuild_any] in E. rewrite Etc in E. cbn [negb] in E. cbn [okv good ids] in *.
+    destruct (Nat.eqb r r0).
     + destruct (rebuild_any c c0 w) as [c1 w1] eqn:Ec. inversion E. subst s' w'. clear E.
-      destruct (IH Hok c0 pre post w) with (s' := c1) (w' := w1) as [P1 [D1 [G1 [C1 [L1 N1]]]]]; auto.
+      destruct (IH Hok c0 pre post w Hcp) with (s' := c1) (w' := w1) as [P1 [D1 [G1 [C1 [L1 N1]]]]]; auto.
       unfold post_ok. cbn [ids cs cv good]. repeat split; auto.
     + destruct (replace_with c c0 w) as [c1 w1] eqn:Ec. inversion E. subst s' w'. clear E.
       destruct (replace_with_ok c c0 pre post w Hok Hg Hp Hd Hnd Hb c1 w1 Ec) as [P1 [D1 [G1 [C1 [L1 N1]]]]].
       unfold post_ok. cbn [ids cs cv good]. repeat split; auto.
   - (* Some *)
-    intros c IH Hok s pre post w Hg Hp Hd Hnd Hb s' w' E.
+    intros c IH Hok s pre post w Hcp Hg Hp Hd Hnd Hb s' w' E.
     destruct (tcode_eqb (tc_view (VOpt (Some c))) (tc_st s)) eqn:Etc.
     2:{ rewrite rebuild_any_diff in E by auto. eapply replace_with_ok; eauto. }
+    rewrite compat_same in Hcp by auto.
     destruct s as [| | | | |c0|ph| |]; try discriminate;
       cbn [rebuild_any tc_view tc_st tcode_eqb negb] in E; cbn [okv good ids] in *.
     + destruct (rebuild_any c c0 w) as [c1 w1] eqn:Ec. inversion E. subst s' w'. clear E.
-      destruct (IH Hok c0 pre post w) with (s' := c1) (w' := w1) as [P1 [D1 [G1 [C1 [L1 N1]]]]]; auto.
+      destruct (IH Hok c0 pre post w Hcp) with (s' := c1) (w' := w1) as [P1 [D1 [G1 [C1 [L1 N1]]]]]; auto.
       unfold post_ok. cbn [ids cs cv good]. repeat split; auto.
     + destruct (replace_with c (SUnit ph) w) as [c1 w1] eqn:Ec. inversion E. subst s' w'. clear E.
       destruct (replace_with_ok c (SUnit ph) pre post w Hok Hg Hp Hd Hnd Hb c1 w1 Ec) as [P1 [D1 [G1 [C1 [L1 N1]]]]].
       unfold post_ok. cbn [ids cs cv good]. repeat split; auto.
   - (* None *)
-    intros _ s pre post w Hg Hp Hd Hnd Hb s' w' E.
+    intros _ s pre post w Hcp Hg Hp Hd Hnd Hb s' w' E.
     destruct (tcode_eqb (tc_view (VOpt None)) (tc_st s)) eqn:Etc.
     2:{ rewrite rebuild_any_diff in E by auto. eapply replace_with_ok; eauto. exact I. }
     destruct s as [| | | | |c0|ph| |]; try discriminate;
@@ -848,11 +903,12 @@ Proof.
         -- intros x [<-|[]]. lia.
     + inversion E. subst. unfold post_ok. cbn [ids cs cv good]. repeat split; auto. lia.
   - (* Vec *)
-    intros l HF Hok s pre post w Hg Hp Hd Hnd Hb s' w' E.
+    intros l HF Hok s pre post w Hcp Hg Hp Hd Hnd Hb s' w' E.
     destruct (tcode_eqb (tc_view (VVec l)) (tc_st s)) eqn:Etc.
     2:{ rewrite rebuild_any_diff in E by auto. eapply replace_with_ok; eauto. }
+    rewrite compat_same in Hcp by auto.
     destruct s as [| | | | | | |ss mk|]; try discriminate.
-    pose proof Hok as Hokv. apply okv_vec in Hok. apply good_vec in Hg. destruct Hg as [Hmk Hgl].
+    pose proof Hok as Hokv. apply (proj1 (okv_vec _)) in Hok. apply (proj1 (good_vec _ _ _)) in Hg. destruct Hg as [Hmk Hgl].
     cbn [ids] in Hd, Hnd. rewrite <- app_assoc in Hd, Hnd. cbn [app] in Hd, Hnd.
     assert (forall x, In x (pre ++ mk :: post) -> (x < r_next w)%N) as Hb'.
     { intros x Hx. apply in_app_or in Hx. destruct Hx as [Hx|[Hx|Hx]].
@@ -884,7 +940,7 @@ Proof.
       * rewrite rebuild_vec_zip_eq in E by discriminate.
         destruct (vec_zip mk (x :: r) (s0 :: sr) w) as [[kept adds] w1] eqn:Ez.
         inversion E. subst s' w'. clear E.
-        destruct (vec_zip_ok mk (x :: r) HF Hok (s0 :: sr) pre post w Hgl Hp Hd Hnd Hb' kept adds w1 Ez)
+        destruct (vec_zip_ok mk (x :: r) HF Hok (s0 :: sr) pre post w Hcp Hgl Hp Hd Hnd Hb' kept adds w1 Ez)
           as [P1 [D1 [G1 [C1 [L1 N1]]]]].
         unfold post_ok. cbn [ids cs cv]. rewrite good_vec. rewrite <- !app_assoc. cbn [app].
         repeat split; auto; try lia; try (rewrite C1; reflexivity).
